@@ -8,7 +8,9 @@ import numpy as np
 import torch
 from gymnasium import spaces
 
+from agilerl.modules.bert import EvolvableBERT
 from agilerl.modules.cnn import EvolvableCNN
+from agilerl.modules.gpt import EvolvableGPT
 from agilerl.modules.lstm import EvolvableLSTM
 from agilerl.modules.mlp import EvolvableMLP
 from agilerl.modules.multi_input import EvolvableMultiInput
@@ -42,6 +44,11 @@ def _x(shape, batch=3):
     return torch.randint(-2, 3, (batch, *shape), generator=g).float()
 
 
+def _tok(shape, vocab, seed=0):
+    g = torch.Generator().manual_seed(99 + seed)
+    return torch.randint(0, vocab, shape, generator=g)
+
+
 def _xd():
     return {"img": _x((2, 8, 8)), "vec": _x((3,))}
 
@@ -67,6 +74,10 @@ BLOCKS = {
                     lambda: (_x((2, 8, 8)), _x((3,)))),
     "make_evo_mlp": (lambda: MakeEvolvable(torch.nn.Sequential(torch.nn.Linear(3, 4), torch.nn.ReLU(), torch.nn.Linear(4, 3), torch.nn.ReLU(), torch.nn.Linear(3, 2)),
                                             torch.zeros(1, 3), min_mlp_nodes=1, max_mlp_nodes=7, min_hidden_layers=1, max_hidden_layers=3), lambda: _x((3,))),
+    "gpt": (lambda: EvolvableGPT(n_layer=2, vocab_size=7, n_embd=4, n_head=2, dim_feedfwd=6, block_size=5, min_layers=1, max_layers=3),
+            lambda: _tok((2, 4), 7)),
+    "bert": (lambda: EvolvableBERT([6, 5], [6, 5], end2end=True, src_vocab_size=7, tgt_vocab_size=7, d_model=4, n_head=2, dropout=0.0,
+                                   max_encoder_layers=3, max_decoder_layers=3), lambda: (_tok((3, 2), 7), _tok((3, 2), 7, 1))),
     # ---- networks (complete and partial configurations)
     "q_vec": (lambda: QNetwork(VEC, spaces.Discrete(3), encoder_config=dict(ENC_MLP), head_config=dict(HEAD), **LAT), lambda: _x((3,))),
     "q_vec_partial": (lambda: QNetwork(VEC, spaces.Discrete(2), encoder_config={"hidden_size": [3]}, latent_dim=4, min_latent_dim=1, max_latent_dim=40), lambda: _x((3,))),
@@ -96,6 +107,9 @@ ARG_CHOICES = {
 }
 
 
+STAR = (ContinuousQNetwork, EvolvableBERT)            # modules called with several positional inputs
+
+
 def build(block):
     mk, mx = BLOCKS[block]
     return mk(), mx()
@@ -116,7 +130,7 @@ def forward(module, x, seed=7):
     torch.manual_seed(seed)
     np.random.seed(seed)
     with torch.no_grad():
-        if isinstance(x, tuple) and isinstance(module, ContinuousQNetwork):
+        if isinstance(x, tuple) and isinstance(module, STAR):
             y = module(*x)
         else:
             y = module(x)
@@ -132,7 +146,7 @@ def train_forward(module, x, n=2):
     with torch.no_grad():
         for i in range(n):
             xi = _scale(x, 2.0 + i)
-            if isinstance(xi, tuple) and isinstance(module, ContinuousQNetwork):
+            if isinstance(xi, tuple) and isinstance(module, STAR):
                 module(*xi)
             else:
                 module(xi)
@@ -140,8 +154,10 @@ def train_forward(module, x, n=2):
 
 
 def _scale(x, c):
+    if isinstance(x, torch.Tensor) and not x.is_floating_point():
+        return x                                     # token ids
     if isinstance(x, dict):
         return {k: v * c + 1 for k, v in x.items()}
     if isinstance(x, tuple):
-        return tuple(v * c + 1 for v in x)
+        return tuple(_scale(v, c) for v in x)
     return x * c + 1
